@@ -863,6 +863,11 @@ func TestProp_C12_UserCalls(t *testing.T) {
 		{"vstart", "r2*", "r2", "r4"},
 		{"vstart", "r2", "r2*", "r4"},
 		{"r1", "vanswer", "r1*", "r3"},
+		// both sides start at the same moment: each refuses the other's first message; afterwards either can start afresh
+		{"vstart", "r1"},
+		{"vstart", "r1", "r1", "vanswer", "r3"},
+		{"vstart", "r1", "vstart", "r2", "r4"},
+		{"vstart", "r2", "r1", "r1", "vanswer", "r3"},
 		// a start that fails for lack of randomness leaves nothing behind
 		{"vstartf", "r2", "r1", "vanswer", "r3"},
 		{"vstartf:1", "r1", "vanswer", "r3"},
